@@ -6,11 +6,16 @@
      they name the same module, and every index is below the store's count;
    - in one run, for ANY execution order of import sites, no module body executes twice and
      any two imports of one module evaluate to the same object (the one kept in the cache).
+   - file modules (importers.FileImporter): the name under which a file is kept in the module
+     store is a function of the place the import denotes - start at the root, walk through the
+     process directory, the work directory of the importing file and the import name, "." stays,
+     ".." goes up - so however an import is spelled (redundant "." and "x/.." elements, climbing
+     above the work directory and coming back, absolute or relative), one file is one module.
    Isolation of module scopes, cycle / unknown-module detection, privacy of builtin module
    values per VM and the serialization round trip are decided on generated import graphs on
    every run (observed part: partial). *)
 From Coq Require Import List ZArith Bool String.
-From Ugo Require Import Comp.ModStore Comp.ModStoreProofs.
+From Ugo Require Import Comp.ModStore Comp.ModStoreProofs Comp.ImportPath Comp.ImportPathProofs.
 Import ListNotations.
 Local Open Scope Z_scope.
 
@@ -33,6 +38,33 @@ Theorem C12_body_at_most_once :
 Proof. exact body_at_most_once. Qed.
 Print Assumptions C12_body_at_most_once.
 
+(* module bodies that may throw (an import event says whether the body, if it runs now, throws):
+   a body RETURNS at most once and all imports that give a value give the same object; when no
+   body throws, a body STARTS at most once (the property as stated) *)
+Theorem C12_body_completes_at_most_once :
+  forall n evs s vs,
+  exec_imports_t (init_tstate n) evs = (s, vs) ->
+  NoDup (t_done s) /\
+  (forall a b i t1 t2 x y, nth_error evs a = Some (i, t1) -> nth_error evs b = Some (i, t2) ->
+                     nth_error vs a = Some (Some x) -> nth_error vs b = Some (Some y) -> x = y).
+Proof. exact body_completes_at_most_once. Qed.
+Print Assumptions C12_body_completes_at_most_once.
+
+Theorem C12_body_at_most_once_no_throw :
+  forall n evs s vs,
+  forallb (fun e => negb (snd e)) evs = true ->
+  exec_imports_t (init_tstate n) evs = (s, vs) -> NoDup (t_runs s).
+Proof. exact body_at_most_once_no_throw. Qed.
+Print Assumptions C12_body_at_most_once_no_throw.
+
+(* known finding D12t: with a body that throws, "executes at most once" is false of the
+   implementation - the witness (import m; import m, the body throwing both times) is replayed
+   on the implementation by the check on every run *)
+Theorem C12_body_at_most_once_refuted :
+  exists n evs s vs, exec_imports_t (init_tstate n) evs = (s, vs) /\ ~ NoDup (t_runs s).
+Proof. exact body_at_most_once_refuted. Qed.
+Print Assumptions C12_body_at_most_once_refuted.
+
 Example C12_diamond :
   (* main imports m1 and m2, both import m3; m3 is requested three times *)
   let '(ms, its) := import_all empty_store [("m1"%string, 1, 0); ("m3"%string, 1, 1); ("m2"%string, 1, 2); ("m3"%string, 1, 9); ("m3"%string, 1, 9)] in
@@ -40,3 +72,34 @@ Example C12_diamond :
   let '(s, vs) := exec_imports (init_rstate 3) [1; 0; 1; 2; 1]%nat in
   execs s = [1; 0; 2] /\ vs = [Some 1; Some 3; Some 1; Some 5; Some 1].
 Proof. vm_compute. repeat split; reflexivity. Qed.
+
+(* file modules: the importer's name for (work directory, import name) is the place it denotes *)
+Theorem C12_file_name_is_place :
+  forall cwd wd name, p_abs cwd = true ->
+  fi_name cwd wd name = {| p_abs := true; p_segs := resolve cwd wd name |}.
+Proof. exact fi_name_resolve. Qed.
+Print Assumptions C12_file_name_is_place.
+
+Theorem C12_file_modules_indexed_by_place :
+  forall cwd reqs ms its,
+  p_abs cwd = true -> Forall noslash (p_segs cwd) ->
+  Forall (fun r => Forall noslash (p_segs (fst (fst r))) /\ Forall noslash (p_segs (snd (fst r)))) reqs ->
+  import_all empty_store (file_reqs cwd reqs) = (ms, its) ->
+  forall i j wd1 n1 c1 wd2 n2 c2 it1 it2,
+    nth_error reqs i = Some (wd1, n1, c1) -> nth_error reqs j = Some (wd2, n2, c2) ->
+    nth_error its i = Some it1 -> nth_error its j = Some it2 ->
+    (m_index it1 = m_index it2 <-> resolve cwd wd1 n1 = resolve cwd wd2 n2).
+Proof. exact file_modules_indexed_by_place. Qed.
+Print Assumptions C12_file_modules_indexed_by_place.
+
+Example C12_file_spellings :
+  (* process directory /w/p, work directory "." : conf.ugo, ./x/../conf.ugo, ../p/conf.ugo and
+     /w/./p//conf.ugo are one file; ../conf.ugo is another *)
+  let cwd := {| p_abs := true; p_segs := [""; "w"; "p"]%string |} in
+  let wd := {| p_abs := false; p_segs := ["."]%string |} in
+  let rel l := {| p_abs := false; p_segs := l |} in
+  map (fun n => p_segs (fi_name cwd wd n))
+      [rel ["conf.ugo"]; rel ["."; "x"; ".."; "conf.ugo"]; rel [".."; "p"; "conf.ugo"];
+       {| p_abs := true; p_segs := [""; "w"; "."; "p"; ""; "conf.ugo"] |}; rel [".."; "conf.ugo"]]%string
+  = [["w"; "p"; "conf.ugo"]; ["w"; "p"; "conf.ugo"]; ["w"; "p"; "conf.ugo"]; ["w"; "p"; "conf.ugo"]; ["w"; "conf.ugo"]]%string.
+Proof. vm_compute. reflexivity. Qed.
